@@ -76,6 +76,11 @@ FramingNames == {NContentLength, NTransferEncoding, NConnection}
 
 Bad(why) == [ok |-> FALSE, why |-> why]
 
+\* With(v, F) = F(v), with v evaluated exactly once.  (TLC re-evaluates a LET definition at every
+\* use when it evaluates an action; nested LETs made the parser ~50 times slower.  A bound variable
+\* of a set constructor is bound to a value.)
+With(v, F(_)) == CHOOSE x \in {F(h) : h \in {v}} : TRUE
+
 -----------------------------------------------------------------------------
 (* Lines.  Every occurrence of the pair CR LF terminates a line. *)
 IsCRLFAt(w, i) == i >= 1 /\ i < Len(w) /\ w[i] = CR /\ w[i + 1] = LF
